@@ -101,6 +101,10 @@ def _alts(ev, unroll, exc, limit):
         return [p for p in a + b if p.feasible()]
     if isinstance(ev, ir.Loop):
         body = paths(ev.body, unroll, exc, limit, False)
+        if ev.comp:
+            # a comprehension has no statements after its element expression: one representative
+            # iteration carries all its events (ordering inside is the same for every iteration)
+            return [Path()] + body if any(b.events for b in body) else [Path()]
         alts = [Path()]
         for n in range(1, unroll + 1):
             for combo in itertools.product(body, repeat=n):
